@@ -26,6 +26,37 @@ from abstraction import Interner  # noqa: E402
 from vsg import apply_rules, cmd_line_args, config  # noqa: E402
 
 
+_SKIP_N = [0]
+
+
+def expand_skip(argv, workdir):
+    """skip_phase is a key of the CONFIGURATION (there is no command-line option): the pseudo argument
+    `--skip_phase 3 5` of the scenario descriptions is turned into a configuration file {"skip_phase": [3, 5]} that is
+    appended to the -c list"""
+    argv = list(argv)
+    if "--skip_phase" not in argv:
+        return argv
+    i = argv.index("--skip_phase")
+    j = i + 1
+    phases = []
+    while j < len(argv) and argv[j].lstrip("-").isdigit():
+        phases.append(int(argv[j]))
+        j += 1
+    del argv[i:j]
+    _SKIP_N[0] += 1
+    p = os.path.join(workdir, "skip_phase_%d_%d.json" % (os.getpid(), _SKIP_N[0]))
+    with open(p, "w") as f:
+        json.dump({"skip_phase": phases}, f)
+    if "-c" in argv:
+        k = argv.index("-c") + 1
+        while k < len(argv) and not argv[k].startswith("-"):
+            k += 1
+        argv.insert(k, p)
+    else:
+        argv += ["-c", p]
+    return argv
+
+
 def parse_args(argv):
     old = sys.argv
     sys.argv = ["vsg"] + list(argv)
@@ -69,7 +100,7 @@ def run_item(item, job, interner, classes, workdir):
     out, err = io.StringIO(), io.StringIO()
     try:
         with contextlib.redirect_stdout(out), contextlib.redirect_stderr(err):
-            cla = parse_args(["-f", tmp] + list(item.get("args", [])))
+            cla = parse_args(["-f", tmp] + expand_skip(item.get("args", []), workdir))
             oConfig = config.New(cla)
             rounds = int(item["rounds"]) if item.get("rounds") else (int(job.get("rounds", 1)) if item.get("tag", "default") == "default" else 1)
             res = None
@@ -106,6 +137,9 @@ def run_item(item, job, interner, classes, workdir):
     except SystemExit as e:
         rec["status"] = "exit"
         rec["exit"] = bool(e.code)
+        if "usage:" in err.getvalue() or "usage:" in out.getvalue():
+            rec["status"] = "machinery"       # the scenario's arguments were not accepted: the harness asked for something VSG has no option for
+            rec["tb"] = (err.getvalue() + out.getvalue())[-600:]
     except RunTimeout:
         rec["status"] = "hang"
         hooks.set_tracer(T)
